@@ -16,6 +16,7 @@ var traceOn = os.Getenv("VERIF_TRACE") != ""
 type Frame struct {
 	fn          *ssa.Function
 	env         map[ssa.Value]Val
+	slots       []Val
 	block, prev *ssa.BasicBlock
 	lib         bool
 	defers      []func()
@@ -28,6 +29,17 @@ type World struct {
 	sizes     types.Sizes
 	errT      types.Type // dynamic type given to engine-made errors
 	harnessFn map[*ssa.Function]bool
+	fnName    map[*ssa.Function]string
+	fnShort   map[*ssa.Function]string
+	valIdx    map[ssa.Value]int32
+	fnSlots   map[*ssa.Function]int32
+}
+
+func (w *World) short(fn *ssa.Function) string {
+	if s, ok := w.fnShort[fn]; ok {
+		return s
+	}
+	return shortFn(fn.String())
 }
 
 // Violation is a property violation found on a path.
@@ -115,6 +127,34 @@ func (in *Interp) libWhere() (string, bool) {
 		}
 	}
 	return in.stack[len(in.stack)-1].fn.String(), lib
+}
+
+// entryWhere names the library entry point a non-terminating path is in: the
+// outermost library frame that is a decoder/encoder/renderer method, so that
+// the signature of a budget violation does not depend on where exactly the
+// budget ran out.
+func (in *Interp) entryWhere() string {
+	first := ""
+	for _, fr := range in.stack {
+		if !fr.lib {
+			continue
+		}
+		root := fr.fn
+		for root.Parent() != nil {
+			root = root.Parent()
+		}
+		if root.Pkg != in.w.mq && !(root.Pkg == nil && strings.Contains(root.String(), "gregoryv/mq")) {
+			continue
+		}
+		n := shortFn(fr.fn.String())
+		if first == "" {
+			first = n
+		}
+		if strings.Contains(n, "UnmarshalBinary") {
+			return n
+		}
+	}
+	return first
 }
 
 func (in *Interp) libPanic(kind, msg string) {
@@ -242,10 +282,23 @@ func (fr *Frame) get(in *Interp, v ssa.Value) Val {
 	case *ssa.Global:
 		return in.globalAddr(v)
 	}
+	if fr.slots != nil {
+		if i, ok := in.w.valIdx[v]; ok {
+			return fr.slots[i]
+		}
+	}
 	if r, ok := fr.env[v]; ok {
 		return r
 	}
 	panic(fmt.Sprintf("get: no value for %T %s in %s", v, v.Name(), fr.fn))
+}
+
+func (fr *Frame) set(in *Interp, v ssa.Value, x Val) {
+	if fr.slots != nil {
+		fr.slots[in.w.valIdx[v]] = x
+		return
+	}
+	fr.env[v] = x
 }
 
 // ---------------------------------------------------------------- calls
@@ -271,7 +324,10 @@ func (in *Interp) call(fn Val, args []Val) Val {
 }
 
 func (in *Interp) callFunction(fn *ssa.Function, args []Val, env []Val) Val {
-	name := fn.String()
+	name, ok := in.w.fnName[fn]
+	if !ok {
+		name = fn.String()
+	}
 	if intr, ok := intrinsics[name]; ok {
 		return intr(in, args)
 	}
@@ -284,16 +340,21 @@ func (in *Interp) callFunction(fn *ssa.Function, args []Val, env []Val) Val {
 	if in.inLib() || !in.w.isHarness(fn) {
 		in.funcsRun[name]++
 	}
-	fr := &Frame{fn: fn, env: make(map[ssa.Value]Val, 16), lib: !in.w.isHarness(fn)}
+	fr := &Frame{fn: fn, lib: !in.w.isHarness(fn)}
+	if n, ok := in.w.fnSlots[fn]; ok {
+		fr.slots = make([]Val, n)
+	} else {
+		fr.env = make(map[ssa.Value]Val, 16)
+	}
 	if fn.Pkg != in.w.mq && fn.Pkg != nil && len(in.stack) > 0 {
 		// std code inherits the classification of its caller
 		fr.lib = in.stack[len(in.stack)-1].lib
 	}
 	for i, p := range fn.Params {
-		fr.env[p] = args[i]
+		fr.set(in, p, args[i])
 	}
 	for i, fv := range fn.FreeVars {
-		fr.env[fv] = env[i]
+		fr.set(in, fv, env[i])
 	}
 	if len(in.stack) > 400 {
 		w, _ := in.libWhere()
@@ -329,7 +390,7 @@ func (in *Interp) runBlock(fr *Frame) (Val, bool) {
 		}
 	}
 	for i := 0; i < nphi; i++ {
-		fr.env[b.Instrs[i].(*ssa.Phi)] = phiVals[i]
+		fr.set(in, b.Instrs[i].(*ssa.Phi), phiVals[i])
 	}
 	for _, instr := range b.Instrs[nphi:] {
 		if fr.lib {
@@ -436,16 +497,16 @@ func (in *Interp) visit(fr *Frame, instr ssa.Instruction) {
 	switch instr := instr.(type) {
 	case *ssa.DebugRef:
 	case *ssa.UnOp:
-		fr.env[instr] = in.unop(instr, fr.get(in, instr.X))
+		fr.set(in, instr, in.unop(instr, fr.get(in, instr.X)))
 	case *ssa.BinOp:
-		fr.env[instr] = in.binop(instr.Op, instr.X.Type(), fr.get(in, instr.X), fr.get(in, instr.Y))
+		fr.set(in, instr, in.binop(instr.Op, instr.X.Type(), fr.get(in, instr.X), fr.get(in, instr.Y)))
 	case *ssa.Call:
 		fn, args, direct := in.prepareCall(fr, &instr.Call)
 		if direct {
-			fr.env[instr] = fn
+			fr.set(in, instr, fn)
 			return
 		}
-		fr.env[instr] = in.call(fn, args)
+		fr.set(in, instr, in.call(fn, args))
 	case *ssa.Defer:
 		fn, args, direct := in.prepareCall(fr, &instr.Call)
 		if !direct {
@@ -457,17 +518,17 @@ func (in *Interp) visit(fr *Frame, instr ssa.Instruction) {
 		}
 		fr.defers = nil
 	case *ssa.ChangeInterface:
-		fr.env[instr] = fr.get(in, instr.X)
+		fr.set(in, instr, fr.get(in, instr.X))
 	case *ssa.ChangeType:
-		fr.env[instr] = fr.get(in, instr.X)
+		fr.set(in, instr, fr.get(in, instr.X))
 	case *ssa.Convert:
-		fr.env[instr] = in.conv(instr.Type(), instr.X.Type(), fr.get(in, instr.X))
+		fr.set(in, instr, in.conv(instr.Type(), instr.X.Type(), fr.get(in, instr.X)))
 	case *ssa.MakeInterface:
-		fr.env[instr] = Iface{T: instr.X.Type(), V: copyVal(fr.get(in, instr.X))}
+		fr.set(in, instr, Iface{T: instr.X.Type(), V: copyVal(fr.get(in, instr.X))})
 	case *ssa.Extract:
-		fr.env[instr] = fr.get(in, instr.Tuple).(Tuple)[instr.Index]
+		fr.set(in, instr, fr.get(in, instr.Tuple).(Tuple)[instr.Index])
 	case *ssa.Slice:
-		fr.env[instr] = in.sliceOp(instr, fr.get(in, instr.X), fr.get(in, instr.Low), fr.get(in, instr.High), fr.get(in, instr.Max))
+		fr.set(in, instr, in.sliceOp(instr, fr.get(in, instr.X), fr.get(in, instr.Low), fr.get(in, instr.High), fr.get(in, instr.Max)))
 	case *ssa.Store:
 		p := fr.get(in, instr.Addr).(Ptr)
 		if p.Slot == nil {
@@ -477,12 +538,12 @@ func (in *Interp) visit(fr *Frame, instr ssa.Instruction) {
 		store(p.Slot, fr.get(in, instr.Val))
 	case *ssa.Alloc:
 		et := instr.Type().(*types.Pointer).Elem()
-		o := in.newObj(1, "alloc in "+shortFn(fr.fn.String()))
+		o := in.newObj(1, in.w.short(fr.fn))
 		o.Cells[0] = in.zero(et)
 		if instr.Heap {
 			in.noteAlloc(in.sizeof(et))
 		}
-		fr.env[instr] = Ptr{&o.Cells[0], o}
+		fr.set(in, instr, Ptr{&o.Cells[0], o})
 	case *ssa.MakeSlice:
 		et := instr.Type().Underlying().(*types.Slice).Elem()
 		n := in.concIndex(fr.get(in, instr.Len).(Sc), 1<<40, "makeslice")
@@ -494,15 +555,15 @@ func (in *Interp) visit(fr *Frame, instr ssa.Instruction) {
 		if c > 1<<26 {
 			in.inconclusive(fmt.Sprintf("make of %d elements is beyond the engine's memory model", c))
 		}
-		o := in.newObj(c, "make in "+shortFn(fr.fn.String()))
+		o := in.newObj(c, in.w.short(fr.fn))
 		z := in.zero(et)
 		for i := range o.Cells {
 			o.Cells[i] = copyVal(z)
 		}
-		fr.env[instr] = Slice{o, 0, n, c}
+		fr.set(in, instr, Slice{o, 0, n, c})
 	case *ssa.MakeMap:
 		in.noteAlloc(48)
-		fr.env[instr] = &Map{Obj: in.newObj(0, "map in "+shortFn(fr.fn.String()))}
+		fr.set(in, instr, &Map{Obj: in.newObj(0, in.w.short(fr.fn))})
 	case *ssa.MapUpdate:
 		m := fr.get(in, instr.Map).(*Map)
 		if m == nil {
@@ -520,26 +581,31 @@ func (in *Interp) visit(fr *Frame, instr ssa.Instruction) {
 		m.Keys = append(m.Keys, k)
 		m.Vals = append(m.Vals, fr.get(in, instr.Value))
 	case *ssa.Lookup:
-		fr.env[instr] = in.lookup(instr, fr.get(in, instr.X), fr.get(in, instr.Index))
+		fr.set(in, instr, in.lookup(instr, fr.get(in, instr.X), fr.get(in, instr.Index)))
 	case *ssa.Range:
 		switch x := fr.get(in, instr.X).(type) {
 		case *Map:
 			it := &MapIter{m: x}
 			if x != nil {
 				it.order = in.mapOrder(len(x.Keys))
+				if len(x.Keys) > 1 && in.inLib() {
+					// natively the order is random: the path cannot be
+					// compared observation by observation
+					in.orderDev = true
+				}
 			}
-			fr.env[instr] = it
+			fr.set(in, instr, it)
 		default:
 			panic(pathEnd{"inconclusive", "range over " + fmt.Sprintf("%T", x)})
 		}
 	case *ssa.Next:
 		it := fr.get(in, instr.Iter).(*MapIter)
 		if it.pos >= len(it.order) {
-			fr.env[instr] = Tuple{concBool(false), nil, nil}
+			fr.set(in, instr, Tuple{concBool(false), nil, nil})
 		} else {
 			i := it.order[it.pos]
 			it.pos++
-			fr.env[instr] = Tuple{concBool(true), it.m.Keys[i], copyVal(it.m.Vals[i])}
+			fr.set(in, instr, Tuple{concBool(true), it.m.Keys[i], copyVal(it.m.Vals[i])})
 		}
 	case *ssa.FieldAddr:
 		p := fr.get(in, instr.X).(Ptr)
@@ -547,23 +613,23 @@ func (in *Interp) visit(fr *Frame, instr ssa.Instruction) {
 			in.libPanic("nil-deref", "field "+instr.String())
 		}
 		st := (*p.Slot).(Struct)
-		fr.env[instr] = Ptr{&st[instr.Field], p.Obj}
+		fr.set(in, instr, Ptr{&st[instr.Field], p.Obj})
 	case *ssa.Field:
-		fr.env[instr] = copyVal(fr.get(in, instr.X).(Struct)[instr.Field])
+		fr.set(in, instr, copyVal(fr.get(in, instr.X).(Struct)[instr.Field]))
 	case *ssa.IndexAddr:
 		x := fr.get(in, instr.X)
 		idx := fr.get(in, instr.Index).(Sc)
 		switch x := x.(type) {
 		case Slice:
 			i := in.concIndex(idx, x.Len, "index")
-			fr.env[instr] = Ptr{&x.Obj.Cells[x.Off+i], x.Obj}
+			fr.set(in, instr, Ptr{&x.Obj.Cells[x.Off+i], x.Obj})
 		case Ptr:
 			if x.Slot == nil {
 				in.libPanic("nil-deref", "index")
 			}
 			arr := (*x.Slot).(Array)
 			i := in.concIndex(idx, len(arr), "index")
-			fr.env[instr] = Ptr{&arr[i], x.Obj}
+			fr.set(in, instr, Ptr{&arr[i], x.Obj})
 		default:
 			panic(fmt.Sprintf("IndexAddr on %T", x))
 		}
@@ -571,23 +637,23 @@ func (in *Interp) visit(fr *Frame, instr ssa.Instruction) {
 		switch x := fr.get(in, instr.X).(type) {
 		case Array:
 			i := in.concIndex(fr.get(in, instr.Index).(Sc), len(x), "index")
-			fr.env[instr] = copyVal(x[i])
+			fr.set(in, instr, copyVal(x[i]))
 		case Str:
 			x = in.flat(x)
 			i := in.concIndex(fr.get(in, instr.Index).(Sc), len(x.B), "index")
-			fr.env[instr] = x.B[i]
+			fr.set(in, instr, x.B[i])
 		default:
 			panic(fmt.Sprintf("Index on %T", x))
 		}
 	case *ssa.TypeAssert:
-		fr.env[instr] = in.typeAssert(instr, fr.get(in, instr.X).(Iface))
+		fr.set(in, instr, in.typeAssert(instr, fr.get(in, instr.X).(Iface)))
 	case *ssa.MakeClosure:
 		var env []Val
 		for _, b := range instr.Bindings {
 			env = append(env, fr.get(in, b))
 		}
 		in.noteAlloc(16 + 8*len(env))
-		fr.env[instr] = &Closure{instr.Fn.(*ssa.Function), env}
+		fr.set(in, instr, &Closure{instr.Fn.(*ssa.Function), env})
 	default:
 		panic(pathEnd{"inconclusive", fmt.Sprintf("unsupported instruction %T in %s", instr, fr.fn)})
 	}
@@ -860,6 +926,11 @@ func (in *Interp) binop(op token.Token, t types.Type, x, y Val) Val {
 		if w == 0 && xv.W != 0 {
 			w = int(xv.W)
 		}
+		if xv.T == nil && yv.T == nil {
+			if r, ok := concBinop(op, w, signed, xv, yv); ok {
+				return r
+			}
+		}
 		switch op {
 		case token.EQL, token.NEQ:
 			r := in.tt.Eq(in.term(xv), in.term(yv))
@@ -969,6 +1040,61 @@ func (in *Interp) binop(op token.Token, t types.Type, x, y Val) Val {
 		return in.fromTerm(in.tt.Not(in.equal(x, y)))
 	}
 	panic(fmt.Sprintf("binop %s on %T", op, x))
+}
+
+// concBinop computes a binary operation on concrete scalars without going
+// through the term table.
+func concBinop(op token.Token, w int, signed bool, x, y Sc) (Sc, bool) {
+	a, b := x.C, y.C
+	cmp := func(r bool) (Sc, bool) { return concBool(r), true }
+	sa, sb := sext(a, max(w, 1)), sext(b, max(w, 1))
+	switch op {
+	case token.EQL:
+		return cmp(a == b)
+	case token.NEQ:
+		return cmp(a != b)
+	case token.LSS:
+		if signed {
+			return cmp(sa < sb)
+		}
+		return cmp(a < b)
+	case token.LEQ:
+		if signed {
+			return cmp(sa <= sb)
+		}
+		return cmp(a <= b)
+	case token.GTR:
+		if signed {
+			return cmp(sa > sb)
+		}
+		return cmp(a > b)
+	case token.GEQ:
+		if signed {
+			return cmp(sa >= sb)
+		}
+		return cmp(a >= b)
+	case token.ADD:
+		return concInt(w, a+b), true
+	case token.SUB:
+		return concInt(w, a-b), true
+	case token.MUL:
+		return concInt(w, a*b), true
+	case token.AND:
+		if w == 0 {
+			return concBool(a&b == 1), true
+		}
+		return concInt(w, a&b), true
+	case token.OR:
+		if w == 0 {
+			return concBool(a|b == 1), true
+		}
+		return concInt(w, a|b), true
+	case token.XOR:
+		return concInt(w, a^b), true
+	case token.AND_NOT:
+		return concInt(w, a&^b), true
+	}
+	return Sc{}, false
 }
 
 func isNilVal(v Val) bool {
